@@ -92,6 +92,11 @@ def gstmtOk : List String → Bool
   | ["udel", a] => (nat? a).isSome
   | ["usel"] => true
   | ["ckpt"] => true
+  | ["wnew", g] => (nat? g).isSome
+  | ["wdrop", g] => (nat? g).isSome
+  | ["vac"] => true
+  | ["wins", g, a, b] => (nat? g).isSome && (nat? a).isSome && (nat? b).isSome
+  | ["wsel", g] => (nat? g).isSome
   | _ => false
 
 def flagOk (s : String) : Bool := s = "0" || s = "1"
